@@ -92,7 +92,10 @@ Definition cls (r : Z) : bool * bool := ((r =? 101) || (r =? 69), can_start_sign
 
 Definition R (s s' : lstate) : Prop :=
   l_state s = l_state s' /\ l_prevrune s = l_prevrune s' /\ l_tokens s = l_tokens s' /\
-  l_buffer s = l_buffer s' /\ can_start_signed_after (l_prebuiltin s) = can_start_signed_after (l_prebuiltin s').
+  l_buffer s = l_buffer s' /\
+  (* preBuiltinRune is read only in the operator mode after a minus *)
+  (l_state s = LBuiltinOperator -> l_prevrune s = 45 ->
+   can_start_signed_after (l_prebuiltin s) = can_start_signed_after (l_prebuiltin s')).
 Definition T (s s' : lstate) : Prop := cls (twoback s) = cls (twoback s').
 Definition Rres (x y : lres) : Prop :=
   match x, y with LOk a, LOk b => R a b | LErr a, LErr b => R a b | _, _ => False end.
@@ -170,14 +173,16 @@ Proof.
   inversion HT as [[HT1 HT2]]; clear HT.
   unfold lex_body. destruct st; simpl;
     unfold lex_normal, lex_firstslash, lex_freshassign, lex_builtin, lex_normal, with_dump, dump_buffer, dump_as, append_token, write_rune, write_runes, twoback, ring_size; simpl;
-    rewrite ?HT1, ?E5;
+    rewrite ?HT1;
+    try (destruct (pr =? 45) eqn:E45; [apply Z.eqb_eq in E45; subst pr; rewrite (E5 eq_refl eq_refl)|]; simpl);
     repeat (match goal with
           | |- context [if ?c then _ else _] => destruct c
           | |- context [match ?l with [] => _ | _ :: _ => _ end] => destruct l
           | |- context [match decode_atom ?x with _ => _ end] => destruct (decode_atom x)
           | |- context [match escape_char ?x with _ => _ end] => destruct (escape_char x)
-          end; simpl; rewrite ?HT1, ?E5);
-    unfold Rres, R; simpl; repeat split; try reflexivity; try assumption.
+          end; simpl; rewrite ?HT1);
+    unfold Rres, R; simpl; repeat split; try reflexivity; try assumption;
+    try (intros; discriminate); try (intros; assumption).
 Qed.
 
 Lemma ringof_push : forall r a a', ringof a = ringof a' -> ringof (ring_push r a) = ringof (ring_push r a').
